@@ -10,7 +10,7 @@ FS = [
     dict(name='ext2-1k-i128', opts=['-t', 'ext2', '-b', '1024', '-I', '128']), dict(name='ext4-1k-nojournal-nodirindex', opts=['-t', 'ext4', '-b', '1024', '-O', '^has_journal,^dir_index']),
     dict(name='ext4-1k-quota', opts=['-t', 'ext4', '-b', '1024', '-O', 'quota,project']), dict(name='ext4-2k-smallgroups', opts=['-t', 'ext4', '-b', '2048', '-g', '1024']),
 ]
-KINDS = ['dir', 'dir', 'file', 'file', 'file', 'sparse', 'symlink', 'hardlink', 'chr', 'blk', 'fifo', 'sock', 'manyfiles', 'bigfile']
+KINDS = ['dir', 'dir', 'file', 'file', 'file', 'sparse', 'sparse', 'symlink', 'hardlink', 'hardlink', 'chr', 'blk', 'fifo', 'sock', 'manyfiles', 'manyfiles', 'bigfile']
 RULE = ('Hypothesis draws a host tree (3-40 nodes: directories to depth 5, files 0..300 KiB with generated content, sparse files with holes at the start/middle/end (block aligned or not), symlinks 1..4095 bytes, hard-link groups across directories, '
         'char/block devices, fifos, sockets, directories with up to 300 entries, names of 1..255 arbitrary bytes, full mode bits incl. setuid/setgid/sticky, uid/gid up to 2^32-2, mtimes 0..2^31-1, user.* xattrs of 0..3000 bytes) and one of %d filesystem configurations. '
         '`mke2fs -d` builds the image; an independent reader (e4ref) must find exactly the same names, types, rdev, sizes, content hashes, symlink targets, hard-link groups, permission bits, owners, whole-second mtimes and user xattrs, every block that lies fully inside a host hole must be unmapped in the image, '
@@ -22,7 +22,7 @@ node = st.fixed_dictionaries(dict(kind=st.sampled_from(KINDS), parent=st.integer
                                  gid=st.sampled_from([0, 0, 100, 65535, 70000, 4294967294]), mtime=st.one_of(st.integers(0, 2147483647), st.sampled_from([0, 1, 2147483647, 1700000000, 1699999999])), xattrs=st.lists(st.tuples(st.text(alphabet='abcdefgh._0', min_size=1, max_size=40), st.integers(0, 3000)), max_size=3),
                                  hole=st.tuples(st.integers(0, 2), st.integers(0, 400000), st.integers(1, 30000))))
 def strategy(env):
-    return st.fixed_dictionaries(dict(fs=st.integers(0, len(FS) - 1), nodes=st.lists(node, min_size=3, max_size=40), clamp=st.booleans()))
+    return st.fixed_dictionaries(dict(fs=st.integers(0, len(FS) - 1), nodes=st.lists(node, min_size=8, max_size=40), clamp=st.booleans()))
 
 def envinit(widx):
     env = hyp.img_env(widx, variants=('asan',))
